@@ -7,7 +7,7 @@ hooks=subprocess.run(['git','-C','/repo','log','--format=%H %s'],capture_output=
 hook_commits=[l.split()[0] for l in hooks if l.split(' ',1)[1].startswith('verif:')]
 m={"version":1,
  "setup_cmd":"cd /verif/engine && GOFLAGS=-mod=vendor GOPROXY=off GOSUMDB=off GOTOOLCHAIN=local go build -o /verif/bin/govc .",
- "hooks":{"guard":"verif","enable":"go/packages load with -tags verif (contracts are comment-only files zz_verif_contracts.go behind //go:build verif; nothing executable is added)",
+ "hooks":{"guard":"verif","enable":"go/packages load with -tags verif (contracts are comment-only files zz_verif_contracts.go behind //go:build verif; the only executable addition is the hook function verifGenesisRoundTrip in modules/coinswap/keeper/zz_verif_hooks.go, compiled only with the tag and never called)",
   "baseline_off_cmd":"for m in $(cat /w/out/gomods.txt); do (cd /repo/$m && GOFLAGS=-mod=mod go test -json -vet=off -count=1 -timeout 25m ./...); done",
   "source_commits":hook_commits,"add_only":True},
  "engines":[{"name":"govc","path":"/verif/engine","serves_properties":sorted(claims['checks'].keys()),
